@@ -128,6 +128,19 @@ Definition find_scope (p : proj) (i : nat) (name : str) (kind : option str) : fo
 Definition col_ids (p : proj) (c : str) : list nat :=
   match assoc_get c (p_cols p) with Some l => l | None => [] end.
 
+(* list(dict.fromkeys(l)) *)
+Fixpoint dedup_names (l : list str) : list str :=
+  match l with
+  | [] => []
+  | x :: l' => x :: filter (fun y => negb (str_eqb x y)) (dedup_names l')
+  end.
+Definition is_ext (n : str) : bool := starts_with (s "ext") n.
+(* the collections searched by an unqualified Project.find, in order: the de-duplicated values of
+   LINK_TYPES, those of the project itself first, then the ones of external projects *)
+Definition project_order : list str :=
+  let names := dedup_names (map snd link_types) in
+  filter (fun n => negb (is_ext n)) names ++ filter is_ext names.
+
 (* Project.find(name, entity, child_name, child_entity) *)
 Definition project_find (p : proj) (name : str) (kind child ckind : option str) : found :=
   let coll :=
@@ -136,7 +149,7 @@ Definition project_find (p : proj) (name : str) (kind child ckind : option str) 
                 | Some c => Some (col_ids p c)
                 | None => None
                 end
-    | None => Some (flat_map (fun kc => col_ids p (snd kc)) link_types)
+    | None => Some (flat_map (col_ids p) project_order)
     end in
   match coll with
   | None => ErrV
